@@ -1,0 +1,18 @@
+//go:build verif
+
+package sequtil
+
+// Property-level theorems for /verif/govc, written as client programs of the
+// contracted functions. Never called; verified modularly (each call is
+// replaced by the callee's contract).
+
+//@ theorem C12.involution
+//@   props C12
+//@   requires forall j int :: 0 <= j && j < len(s) ==> isBase10(s[j])
+func thmInvolution(s []byte) {
+	a := ReverseComplement(nil, s)
+	b := ReverseComplement(nil, a)
+	//@ assert len(b) == len(s)
+	//@ assert forall j int :: 0 <= j && j < len(s) ==> b[j] == s[j]
+	_ = b
+}
